@@ -181,10 +181,26 @@ def j_poisson(o, rep, out):
 
 
 # ------------------------------------------------------------------------------------------------ farthest pair
-def u_farthest(n=3):
+def u_farthest(n=3, normalised=False, third=None):
     P, base, inp = sym_points(n)
-    # distinct points (a hull has no repeated vertex)
+    if third is not None:
+        # first edge normalised and the third vertex taken from a short list: the remaining vertices are symbolic (a bound, stated)
+        normalised = True
+    if normalised:
+        # similarity normalisation: the first hull edge is (0,0)-(10,0).  Every polygon is similar to one of these and the function only
+        # compares distances, so this loses no polygon shapes; it removes 4 of the 2n unknowns from the non-linear queries.
+        P[0], P[1] = [rat(0), rat(0)], [rat(10), rat(0)]
+        base = bounded(*[c for p in P[2:] for c in p])
+        inp = {k: v for k, v in inp.items() if not k.startswith(('p0', 'p1'))}
+        if third is not None:
+            P[2] = [rat(third[0]), rat(third[1])]
+            base = bounded(*[c for p in P[3:] for c in p])
+            inp = {k: v for k, v in inp.items() if not k.startswith('p2')}
+    # a hull: strictly convex, counter-clockwise, vertices apart
     base += [d2(P[i], P[j]) >= rat('1/1000000') for i, j in itertools.combinations(range(n), 2)]
+    for i in range(n):
+        a, b, c = P[i], P[(i + 1) % n], P[(i + 2) % n]
+        base.append((b[0] - a[0]) * (c[1] - b[1]) - (b[1] - a[1]) * (c[0] - b[0]) >= rat('1/1000'))
 
     def make(eng):
         return [Ref.to(Struct('ConvexPolygon', [VecV([pt(list(p)) for p in P]), Opaque('normals')]))], None
@@ -198,18 +214,29 @@ def u_farthest(n=3):
                 obs.append(holds(f'no pair is farther apart than the reported one ({a},{b})', d2(P[a], P[b]) <= d2(P[i], P[j])))
         return obs
 
-    return Unit(f'farthest_pair[n={n}]', 'farthest_pair_indices', make, post, base=base, inputs=inp,
-                replay=None, loop_budget=8 * n * n + 32, max_paths=20000, bounds={'hull points': f'{n} symbolic, pairwise at least 1e-3 apart'},
-                assumptions=['ConvexPolygon::points returns the stored vertices (parry)'], timeout_ms=15000)
+    return Unit(f'farthest_pair[n={n}{",first edge normalised" if normalised else ""}{",third vertex " + str(third) if third is not None else ""}]', 'farthest_pair_indices', make, post, base=base, inputs=inp,
+                replay=('farthest_pair', lambda mm: {'points': [[mm.get(f'p{i}x', float(as_fraction(P[i][0])) if not is_sym(P[i][0]) or as_fraction(P[i][0]) is not None else 0.0), mm.get(f'p{i}y', float(as_fraction(P[i][1])) if as_fraction(P[i][1]) is not None else 0.0)] for i in range(n)]}), loop_budget=8 * n * n + 32, max_paths=20000,
+                bounds={'hull points': f'{n} symbolic points in strictly convex counter-clockwise position, pairwise at least 1e-3 apart'},
+                assumptions=['ConvexPolygon::points returns the stored vertices (parry)'], timeout_ms=4000)
 
 
-JUDGES = {'kd_tree': j_kd, 'poisson_disk': j_poisson}
+def j_farthest(o, rep, out):
+    import numpy as np
+    if 'ok' not in out:
+        return 'panic'
+    P = np.array(out['ok']['points'], float)
+    i, j = out['ok']['pair']
+    best = max(np.linalg.norm(P[a] - P[b]) for a in range(len(P)) for b in range(a + 1, len(P)))
+    return 'the reported pair is not the farthest pair of the hull' if np.linalg.norm(P[i] - P[j]) < best - 1e-9 * (1 + best) else False
+
+
+JUDGES = {'kd_tree': j_kd, 'poisson_disk': j_poisson, 'farthest_pair': j_farthest}
 
 UNITS = {
-    'quick': [('u_kd', {'n': 3, 'partial': None, 'count': 2}), ('u_kd', {'n': 3, 'partial': (2, 0), 'count': 1}), ('u_kd', {'n': 4, 'partial': (3, 1, 0), 'count': 2}), ('u_kd', {'n': 2, 'partial': None, 'count': 3}),
-              ('u_poisson', {'n': 3}), ('u_poisson', {'n': 4, 'working': (2, 0, 3)}), ('u_poisson', {'n': 3, 'working': (2, 1, 0)}), ('u_farthest', {'n': 3})],
+    'quick': [('u_kd', {'n': 3, 'partial': None, 'count': 2}), ('u_kd', {'n': 3, 'partial': (2, 0), 'count': 1}), ('u_kd', {'n': 4, 'partial': (3, 1, 0), 'count': 2}), ('u_kd', {'n': 2, 'partial': None, 'count': 3}), ('u_kd', {'n': 3, 'partial': (2, 0, 1), 'count': 2}),
+              ('u_poisson', {'n': 3}), ('u_poisson', {'n': 4, 'working': (2, 0, 3)}), ('u_poisson', {'n': 3, 'working': (2, 1, 0)}), ('u_farthest', {'n': 3})] + [('u_farthest', {'n': 4, 'third': t}) for t in (('49/5', 1), (10, 3), (8, 6))],
     'thorough': [('u_kd', {'n': n, 'partial': p, 'count': c}) for n in (2, 3, 4) for p in (None, (n - 1, 0), tuple(range(n - 1, -1, -1))) for c in (1, 2, 3)] +
-                [('u_poisson', {'n': n, 'working': w}) for n in (3, 4) for w in (None, tuple(range(n - 1, -1, -1)), (n - 1, 0, 1))] + [('u_farthest', {'n': n}) for n in (3, 4)],
+                [('u_poisson', {'n': n, 'working': w}) for n in (3, 4) for w in (None, tuple(range(n - 1, -1, -1)), (n - 1, 0, 1))] + [('u_farthest', {'n': n}) for n in (3, 4)] + [('u_farthest', {'n': n, 'normalised': True}) for n in (4, 5)],
 }
 
 
